@@ -16,11 +16,12 @@
                                 same (route,host), push to the back with t = now
      Get(r,h)     Cache::get  - first entry with that (route,host); None when now - t > TimeLimit
      Tick(d)      the wall clock advances by d seconds
-     SetOversize  Cache::set with size > Limit: the loop pops every entry and then indexes data[0]
-                  of the empty deque, i.e. the call panics and leaves the cache emptied.  The property
-                  and the handlers (size_limit >= len guard in inner_file_handler) never do this; the
-                  action exists so that the observation can be recorded, it is disabled whenever all
-                  payloads fit.
+   The eviction loop has no emptiness test: when the queue is exhausted and the loop condition still
+   holds, `self.data[0]` panics.  With an exact counter that happens only for size > Limit, which the
+   property does not speak of and the handlers never do (size_limit >= len guard in
+   inner_file_handler); the model records it as op.panic with the cache left emptied, so that the
+   observation can be replayed (Gen_Cache_over.cfg).  Within the limit, Act_ImmediatelyRetrievable
+   demands that a set does not panic.
 
    `last` is a ghost: the most recent Set per key (what the property calls "most recently stored").
    `op` describes the step just taken (name, arguments, result) - the observable of the step.
@@ -90,17 +91,18 @@ RemoveAt(s, i) == SubSeq(s, 1, i - 1) \o SubSeq(s, i + 1, Len(s))
 
 OverLimit(tot, sz) == IF "EvictIgnoresNew" \in Dev THEN tot > Limit ELSE tot + sz > Limit
 
-\* the `while` loop of Cache::set; result <<entries, total>>.  The real loop has no emptiness test
-\* (data[0] panics on an empty deque); for sz <= Limit and total = sum of sizes it never gets there.
+\* the `while` loop of Cache::set; result <<entries, total, panicked>>.  The real loop has no emptiness
+\* test: data[0] panics on an empty deque (for sz <= Limit and total = sum of sizes it never gets there).
 RECURSIVE Evict(_, _, _)
 Evict(es, tot, sz) ==
-  IF OverLimit(tot, sz) /\ es # <<>>
-  THEN IF "PopBack" \in Dev
+  IF OverLimit(tot, sz)
+  THEN IF es = <<>> THEN <<es, tot, TRUE>>
+       ELSE IF "PopBack" \in Dev
        THEN Evict(SubSeq(es, 1, Len(es) - 1), tot - es[1].size, sz)
        ELSE Evict(Tail(es), tot - es[1].size, sz)
-  ELSE <<es, tot>>
+  ELSE <<es, tot, FALSE>>
 
-\* the whole of Cache::set for a payload that fits; result <<entries, total>>
+\* the whole of Cache::set; result <<entries, total, panicked>>
 SetRes(es, tot, r, h, p, now) ==
   LET ev   == Evict(es, tot, p.size)
       es1  == ev[1]
@@ -109,7 +111,8 @@ SetRes(es, tot, r, h, p, now) ==
       keep == i = 0 \/ "NoRemoveOnReplace" \in Dev
       es2  == IF keep THEN es1 ELSE RemoveAt(es1, i)
       tot2 == IF keep \/ "NoSubOnReplace" \in Dev THEN tot1 ELSE tot1 - es1[i].size
-  IN  <<Append(es2, Entry(r, h, p, now)), tot2 + p.size>>
+  IN  IF ev[3] THEN <<es1, tot1, TRUE>>
+      ELSE <<Append(es2, Entry(r, h, p, now)), tot2 + p.size, FALSE>>
 
 (***************************************************************************)
 (* Actions                                                                 *)
@@ -120,18 +123,11 @@ Init ==
   /\ op = Op("init", "", 0, NoPayload, 0, NoItem, FALSE)
 
 Set(r, h, p) ==
-  /\ p.size <= Limit
   /\ LET s == SetRes(entries, total, r, h, p, clock)
-     IN  entries' = s[1] /\ total' = s[2]
-  /\ last' = [last EXCEPT ![<<r, h>>] = Hit(p, clock)]
-  /\ op' = Op("set", r, h, p, 0, NoItem, FALSE)
+     IN  /\ entries' = s[1] /\ total' = s[2]
+         /\ last' = IF s[3] THEN last ELSE [last EXCEPT ![<<r, h>>] = Hit(p, clock)]
+         /\ op' = Op("set", r, h, p, 0, NoItem, s[3])
   /\ UNCHANGED clock
-
-SetOversize(r, h, p) ==
-  /\ p.size > Limit
-  /\ entries' = <<>> /\ total' = 0
-  /\ op' = Op("set", r, h, p, 0, NoItem, TRUE)
-  /\ UNCHANGED <<clock, last>>
 
 Get(r, h) ==
   /\ op' = Op("get", r, h, NoPayload, 0, GetRes(entries, r, h, clock), FALSE)
@@ -143,7 +139,7 @@ Tick(d) ==
   /\ UNCHANGED <<entries, total, last>>
 
 Next ==
-  \/ \E r \in Routes, h \in Hosts, p \in Payloads : Set(r, h, p) \/ SetOversize(r, h, p)
+  \/ \E r \in Routes, h \in Hosts, p \in Payloads : Set(r, h, p)
   \/ \E r \in Routes, h \in Hosts : Get(r, h)
   \/ \E d \in Ticks : Tick(d)
 
@@ -187,11 +183,13 @@ Inv_Unique ==
   \A i, j \in 1..Len(entries) :
     (i # j) => ~(entries[i].route = entries[j].route /\ entries[i].host = entries[j].host)
 
-\* "an item no larger than the limit is retrievable immediately after being stored" (same clock)
+\* "an item no larger than the limit is retrievable immediately after being stored" (same clock);
+\* in particular storing it does not panic
 ImmediatelyRetrievable ==
-  (op'.name = "set" /\ ~op'.panic /\ op'.size <= Limit)
-     => GetRes(entries', op'.route, op'.host, clock')
-          = [hit |-> TRUE, size |-> op'.size, id |-> op'.id, mime |-> op'.mime, t |-> clock']
+  (op'.name = "set" /\ op'.size <= Limit)
+     => /\ ~op'.panic
+        /\ GetRes(entries', op'.route, op'.host, clock')
+             = [hit |-> TRUE, size |-> op'.size, id |-> op'.id, mime |-> op'.mime, t |-> clock']
 Act_ImmediatelyRetrievable == [][ImmediatelyRetrievable]_vars
 
 \* every Get step reports what the property allows (redundant with Inv_Coherent, stated on the step)
